@@ -396,6 +396,6 @@ func build(tier string) ([]runner.Instance, time.Duration) {
 }
 
 func main() {
-	runner.Main(runner.Options{Property: "C09", Level: "exploration", Build: build,
+	runner.Main(runner.Options{Property: "C09", Level: "exploration", Build: build, RacePoints: true,
 		Assume: []string{"model of sync/context/channels in verif/vs (DESIGN §2.2)", "LIFO back-end with capacity 4 >= burst so that nothing is evicted", "small scope: bursts of <=3 messages, one subscriber, <=2 dispatch workers"}})
 }
